@@ -52,7 +52,8 @@ let () =
       | name :: rest ->
           let out = dispatch name (parse_nums rest) in
           output_string oc ("# " ^ name ^ "\n");
-          List.iter (print_line oc) out
+          List.iter (print_line oc) out;
+          flush oc   (* one flush per case: the orchestrator's watchdog reads progress off the file's size *)
     done
   with End_of_file -> ());
   close_out oc
